@@ -6,6 +6,8 @@ Driver part for C27 (PD allocator).  Ops:
                                      → parked=<id>,<ts> | blocked
   pd.save <tid>                      let the parked save of <tid> proceed and the request reply
                                      → <fresh|dup>:reply=<first>,<count> ckpt=<id>,<ts>[ next=<tid>:<id>,<ts>]
+  pd.savefail <tid>                  the parked checkpoint write fails (storage error): the request answers with an error
+                                     → fresh:error ckpt=<id>,<ts> cur=<idCounter>,<tsCounter>[ next=…]
   pd.restart                         kill the process, restart from PD_STATE.json
                                      → <safe|unsafe>:starts=<id>,<ts>
   pd.ckpt                            → ckpt=<id>,<ts>
@@ -31,6 +33,9 @@ def setCfg (d : DSt) (kv : String) : Option DSt :=
     | "pd.persistSerialized" => do let b ← boolOfString? v; pure { d with c := { d.c with persistSerialized := b } }
     | "pd.persistAfterReserve" => do let b ← boolOfString? v; pure { d with c := { d.c with persistAfterReserve := b } }
     | "pd.resolveBumps" => do let b ← boolOfString? v; pure { d with c := { d.c with resolveBumps := b } }
+    | "pd.releasesOnPersistError" => do let b ← boolOfString? v; pure { d with c := { d.c with releasesOnError := b } }
+    | "pd.reserveTakesExactlyN" | "pd.replyFromReserve" => if v == "true" then some d else none
+    | "pd.allocatorMethods" => some d
     | "pd.reserveIsAtomicAdd" | "pd.saveAtomicReplace" | "pd.savesCurrentCounters" | "pd.startupResolves" =>
       -- assumptions of the model, shape-checked by the extractor; only the expected value is modelled
       if v == "true" then some d else none
@@ -118,6 +123,23 @@ def step (d : DSt) (toks : List String) : DSt × String :=
           | [] => (s1, [], "")
         ({ d with s := s2, waiters := ws },
           s!"{flag}:{rep} ckpt={s2.ck .id},{s2.ck .ts}{nxt}\tfresh:*")
+      else (d, "notparked\t*")
+    | none => (d, "bad-op")
+  | ["pd.savefail", t] =>
+    -- the checkpoint write of the parked request fails: error reply, nothing handed out
+    match natOf? t with
+    | some tid =>
+      if pcOf d.s tid = some PC.save then
+        let s0 := match PD.step d.c d.s (.failSave tid) with
+          | some s' => s'
+          | none => d.s
+        let s1 := runToEnd d.c s0 tid 8
+        let (s2, ws, nxt) := match d.waiters with
+          | w :: ws =>
+            let s2 := runToGate d.c s1 w 8
+            if pcOf s2 w = some PC.save then (s2, ws, s!" next={w}:{parkedStr s2 w}") else (s2, w :: ws, "")
+          | [] => (s1, [], "")
+        ({ d with s := s2, waiters := ws }, s!"fresh:error ckpt={s2.ck .id},{s2.ck .ts} cur={s2.ctr .id},{s2.ctr .ts}{nxt}\tfresh:*")
       else (d, "notparked\t*")
     | none => (d, "bad-op")
   | ["pd.restart"] =>
